@@ -996,6 +996,18 @@ func RenderStep(s drv.Step) string {
 		return fmt.Sprintf("%d:%s #%d", s.ID, op, s.N)
 	case OpBClose, OpBSize:
 		return fmt.Sprintf("%d:%s #%d", s.ID, op, s.N)
+	case "cb.set":
+		return fmt.Sprintf("%d:batch-set@%s %s=%s", s.ID, view, fmtB(s.K), fmtB(s.V))
+	case "cb.del":
+		return fmt.Sprintf("%d:batch-del@%s %s", s.ID, view, fmtB(s.K))
+	case "cb.write":
+		return fmt.Sprintf("%d:batch-write@%s", s.ID, view)
+	case "cr.snap", "cr.revsnap", "cr.get":
+		rid := 0
+		if s.Cache != nil {
+			rid = *s.Cache
+		}
+		return fmt.Sprintf("%d:reader%d %s@%s %s", s.ID, rid, strings.TrimPrefix(s.Op, "cr."), view, fmtB(s.K))
 	}
 	return fmt.Sprintf("%d:%s", s.ID, op)
 }
